@@ -88,7 +88,7 @@ Section Mv.
   Theorem mv_state_ok_stable : forall (w : world) p q st,
     state_ok teqb hc w st -> state_ok teqb hc (move_file w p q) st.
   Proof.
-    intros w p q st [H1 H2]. split; [rewrite InvProofs.move_file_clock; exact H1|].
+    intros w p q st [He | [H1 H2]]; [left; exact He | right]. split; [rewrite InvProofs.move_file_clock; exact H1|].
     intros f Hf Ht. apply H2; [eapply mv_no_new_file; exact Hf | exact Ht].
   Qed.
 
@@ -295,14 +295,14 @@ Proof. vm_compute. repeat split. Qed.
 
 (* the invariants hold there (C01_invariants_after_every_history: OMove is in the alphabet) ... *)
 Example mv_inv : disk_inv sym_eqb SContent mv_w /\ hist_sound_sym mv_w.
-Proof. apply (reach_hist_sound_partial_sym 1 mv_ops); [reflexivity | exact mv_ops_det_w]. Qed.
+Proof. apply (reach_hist_sound_partial_sym 1 mv_ops); exact mv_ops_det_w. Qed.
 
 (* ... so by C01 the last build leaves from-scratch contents at every target of its plan ... *)
 Example mv_last_build_is_scratch : forall t, In t (plan_targets mv_pack) ->
   content_at (o_world (build_sym mv_w RULES_PATH None)) t = content_at (scratch_world mv_w mv_pack) t.
 Proof.
   apply (c01_every_history_sym_partial 1 mv_ops None mv_w1 mv_tbl mv_pack);
-    [reflexivity | exact mv_ops_det_w | exact mv_init | exact mv_nodes | exact mv_det | exact mv_ok].
+    [exact mv_ops_det_w | exact mv_init | exact mv_nodes | exact mv_det | exact mv_ok].
 Qed.
 
 (* ... which is "Y": by the theorem and by computation *)
@@ -358,7 +358,7 @@ Proof.
   intro H.
   pose (w := run_sym (firstn 6 mv_ops) (init_world Fine 1)).
   assert (disk_inv sym_eqb SContent w) as Hinv.
-  { apply (reach_hist_sound_partial_sym 1 (firstn 6 mv_ops)); [reflexivity|].
+  { apply (reach_hist_sound_partial_sym 1 (firstn 6 mv_ops)).
     apply det_history_firstn_sym. exact mv_ops_det_w. }
   assert (exists tbl st f, rd_table (w_rd w) = Some (SF_ok tbl) /\ alookup bytes_eqb tbl [116] = Some st /\
             fget (move_file w [116; 46; 98; 97; 107] [116]) [116] = Some f /\
